@@ -239,14 +239,35 @@ def strip_coq_comments(txt):
     return "".join(out)
 
 
-def grep_gate():
-    """No Admitted / Axiom / Parameter / ... anywhere in the development."""
+def dep_closure(rel):
+    """Files of the development (relative to coq/) that `rel` transitively Requires."""
+    seen = []
+    todo = [rel]
+    while todo:
+        r = todo.pop()
+        if r in seen or not os.path.exists(os.path.join(COQ, r)):
+            continue
+        seen.append(r)
+        txt = strip_coq_comments(open(os.path.join(COQ, r)).read())
+        for m in re.finditer(r"From\s+Verif\s+Require\s+(?:Import|Export)?\s*([^.]*(?:\.[A-Za-z_][^.\s]*)*)\s*\.", txt):
+            for mod in m.group(1).split():
+                todo.append(mod.replace(".", "/") + ".v")
+        for m in re.finditer(r"Require\s+(?:Import|Export)?\s+((?:Verif\.[A-Za-z_0-9.]+\s*)+)\.", txt):
+            for mod in m.group(1).split():
+                todo.append(mod[len("Verif."):].replace(".", "/") + ".v")
+    return seen
+
+
+def grep_gate(only=None):
+    """No Admitted / Axiom / Parameter / ... in the development (or in the files `only`)."""
     bad = []
     for d, _, fs in os.walk(COQ):
         for f in fs:
             if not f.endswith(".v"):
                 continue
             p = os.path.join(d, f)
+            if only is not None and os.path.relpath(p, COQ) not in only:
+                continue
             txt = strip_coq_comments(open(p).read())
             # `Variable`/`Hypothesis` outside a section
             depth = 0
@@ -389,7 +410,7 @@ class Ctx:
         body = strip_coq_comments(src)
         thms = re.findall(r"^\s*Theorem\s+([A-Za-z_0-9']+)", body, re.M)
         self.obligations += thms
-        bad = grep_gate()
+        bad = grep_gate(only=dep_closure(rel))
         if bad:
             self.broken.append({"kind": "gate", "name": "forbidden-construct", "detail": "; ".join(bad[:5])})
             return False
